@@ -46,6 +46,8 @@ def gen_cases(tier, seed):
     subsets3 = list(schedx.subsets_upto(3, m_main))
     for pattern, step, wa in _cfgs(tier):
         for s in subsets3:
+            if tier == 'quick' and not wa and len(s) == 2 and s[0][1] != s[1][1]:
+                continue      # quick: 2D mode runs all singles and the same-sensor pairs (thorough: everything)
             add(pattern, 3, 0.0, wa, step, s)
     # cluster family (several samples inside one interval, every interval)
     clusters = schedx.cluster_family(3)
@@ -236,8 +238,8 @@ def finalize(cases, results, tier):
                 traces_validated_against_impl=len(results),
                 distinct_cursor_sequences=len(seqs),
                 bound='thorough: M<=3 samples (N=3), M<=2 (N=4), cluster family 3-4; '
-                      'quick: M<=2 (N=3), cluster family on 6 configurations'
-                if tier == 'thorough' else 'M<=2 samples (N=3) + cluster family (3-4 in one '
+                      'quick: M<=2 (N=3; in 2D mode same-sensor pairs only), cluster family on 6 configurations'
+                if tier == 'thorough' else 'M<=2 samples (N=3; 2D mode: singles and same-sensor pairs) + cluster family (3-4 in one '
                 'interval) + defaults/model variants + decimal regime',
                 explanation='states/transitions = nodes/edges of the union loop-head cursor '
                             'graph (configuration, index, measurement_time_index) observed by '
